@@ -25,6 +25,9 @@ HcOf(c) == [h \in H |-> [reasons |-> Range(c.hc[h].reasons), optional |-> c.hc[h
 ConfOf(c) == IF "dh" \in DOMAIN c
              THEN [hc |-> HcOf(c), order |-> c.order, lifecycle |-> c.lifecycle, ctimeout |-> c.ctimeout,
                    dh |-> c.dh, polling |-> c.polling, exitto |-> c.exitto]
+             ELSE IF "subs" \in DOMAIN c
+             THEN [hc |-> HcOf(c), order |-> c.order, lifecycle |-> c.lifecycle, ctimeout |-> c.ctimeout,
+                   subs |-> [h \in H |-> c.subs[h]]]
              ELSE [hc |-> HcOf(c), order |-> c.order, lifecycle |-> c.lifecycle, ctimeout |-> c.ctimeout]
 TInit ==
   /\ tid \in 1..Len(Traces) /\ l = 1 /\ bad = "none" /\ exc = "none"
@@ -59,7 +62,7 @@ TBegin   == Ev("begin") /\ ProcBegin /\ Head(bl).rv = E.rv /\ Head(bl).type = E.
             /\ EffCt(wk'.ctime) = EffCt(E.ctime)
             /\ (EffCt(E.ctime) # 0 => wk'.exp = E.exp)
             /\ wk'.pr = E.pr
-TInv     == Ev("inv") /\ InvokeWith(E.h, [k |-> E.k, d |-> E.d])
+TInv     == Ev("inv") /\ (InvokeWith(E.h, [k |-> E.k, d |-> E.d]) \/ InvokeSub(E.h, [k |-> E.k, d |-> E.d]))
             /\ cyc'.last.retry = E.retry /\ cyc'.last.reason = E.reason /\ cyc'.last.rv = E.rv
 TMerge   == Ev("merge") /\ (SrvMerge \/ SrvTouch)
             /\ IF E.code = 404 THEN ~obj.exists ELSE obj.exists /\ ObjIs(obj', E) /\ (obj' # obj) = E.changed
@@ -88,7 +91,7 @@ TExit    == Ev("exit") /\ IF Known(E.h) /\ Alive(E.h) THEN DExit(E.h) ELSE Lost 
 TQuiet   == Ev("quiet") /\ ~ENABLED Urgent /\ (up => chan = <<>> /\ bl = <<>>)
             /\ UNCHANGED <<obj, chan, bl, up, stopping, mem, wk, pc, cyc, now, bud, gh>>
 
-Silent == (CWaitWoken \/ CWaitTimeout \/ ProcFinish \/ Reply1 \/ SleepWake \/ SleepExpire
+Silent == (CWaitWoken \/ CWaitTimeout \/ ProcFinish \/ Reply1 \/ SleepWake \/ SleepExpire \/ ParentEnd
            \/ (\E h \in DHs : StopSet(h) \/ Stage(h) \/ StageC(h) \/ KCancel(h) \/ KDrop(h) \/ REnd(h)) \/ Decide \/ KillerExit \/ WorkerAbort) /\ Keep
 Advance == /\ l <= Len(T) /\ E.t > now /\ ~ENABLED Urgent
            /\ now' = now + 1          \* second by second: a deadline in between may not be jumped over
